@@ -17,6 +17,7 @@ _EMPTY = _Empty()
 class _DictView:
     def __init__(self, wrapper: internal.RepeatedValueWrapper[MetaItem, MetaItem]):
         self._wrapper = wrapper
+        self._mapping = wrapper  # what the KeysView / ItemsView mixins (membership, set operations, repr) look at
 
     def __len__(self) -> int:
         return len(self._wrapper)
@@ -35,6 +36,9 @@ class RepeatedRawMetaKeysView(_DictView, KeysView[str]):
 class RepeatedRawMetaValuesView(_DictView, ValuesView[MetaItem]):
     def __iter__(self) -> Iterator[MetaItem]:
         return iter(self._wrapper)
+
+    def __contains__(self, value: object) -> bool:
+        return any(v is value or v == value for v in self)
 
     def __reversed__(self) -> Iterator[MetaItem]:
         return reversed(self._wrapper)
@@ -164,6 +168,9 @@ class RepeatedMetaValuesView(_DictView, ValuesView[Optional[MetaValue]]):
     def __iter__(self) -> Iterator[Optional[MetaValue]]:
         for item in self._wrapper:
             yield item.value
+
+    def __contains__(self, value: object) -> bool:
+        return any(v is value or v == value for v in self)
 
     def __reversed__(self) -> Iterator[Optional[MetaValue]]:
         for item in reversed(self._wrapper):
